@@ -29,6 +29,8 @@ def cases(tier, seed):
     # an explicit reference epoch given in a non-TCB time scale (the kernel's epoch number and the samples' t_ref must be the same instant)
     for pt_ in (1, 2):
         yield f"{pt_}/tref-utc", {"pt": pt_, "no": 0, "customK": False, "s": None, "Pu": "day", "vu": "km/s", "seed": int(seed) + 5, "layout": "single-tref-utc"}
+    # very precise velocities (variances ~1e-9 in (km/s)**2): the per-row likelihood is the Gaussian of the row's own curve at any error scale
+    yield "1/precise", {"pt": 1, "no": 0, "customK": False, "s": None, "Pu": "day", "vu": "km/s", "seed": int(seed) + 5, "layout": "single-precise"}
     yield "offsets", {"pt": 1, "no": 1, "customK": False, "s": None, "Pu": "day", "vu": "km/s", "seed": int(seed) + 5, "layout": "disjoint"}
 
 
@@ -88,6 +90,12 @@ def check(inp):
             if not np.allclose(rv, model, rtol=1e-7, atol=1e-7 * max(1.0, np.abs(model).max())):
                 bad("get_orbit", "same-rv-curve-as-the-sampler", row=r, maxdiff=float(np.max(np.abs(rv - model))))
                 break
+            if inp["layout"] == "single-precise":
+                lnl = norm.logpdf(y, rv, np.sqrt(np.diag(C))).sum()
+                if abs(lun[r] - lnl) > 1e-8 * max(1.0, abs(lnl)):
+                    bad("ln_unmarginalized_likelihood", "gaussian-with-jitter-in-quadrature[precise-data]", row=r, got=float(lun[r]), want=float(lnl))
+                    break
+                continue
             lnl = norm.logpdf(y, model, np.sqrt(np.diag(C))).sum()
             if abs(lun[r] - lnl) > tol * max(1.0, abs(lnl)):
                 bad("ln_unmarginalized_likelihood", "gaussian-with-jitter-in-quadrature", row=r, got=float(lun[r]), want=float(lnl))
